@@ -190,6 +190,15 @@ pub fn templates(thorough: bool) -> Vec<Tmpl> {
     add("two_cycle", vec![m(vec![pp(n("a")).step(r(Dir::Out).v("r"), n("b")).step(r(Dir::Out).v("s"), n("a"))])], vec!["a", "b"], vec!["r", "s"], None);
     add("two_path", vec![m(vec![pp(n("a")).step(r(Dir::Out).v("r"), n("b")).step(r(Dir::Out).v("s"), n("c")).named("p")])], vec!["a", "b", "c"], vec!["r", "s"], Some("p"));
     add("hop_path", vec![m(vec![pp(n("a")).step(r(Dir::Out).v("r"), n("b")).named("p")])], vec!["a", "b"], vec!["r"], Some("p"));
+    // the most selective node is the MIDDLE one: the planner anchors there and walks one hop
+    // backward and one forward; relationship isomorphism must hold across the anchor
+    // (seeded change C01 broke exactly this and was invisible with first-node anchors)
+    add("two_mid_B_und", vec![m(vec![pp(n("a")).step(r(Dir::Both).v("r"), n("b").l("B")).step(r(Dir::Both).v("s"), n("c"))])], vec!["a", "b", "c"], vec!["r", "s"], None);
+    add("two_mid_B_out", vec![m(vec![pp(n("a")).step(r(Dir::Out).v("r"), n("b").l("B")).step(r(Dir::Out).v("s"), n("c"))])], vec!["a", "b", "c"], vec!["r", "s"], None);
+    add("two_mid_p2_und", vec![m(vec![pp(n("a")).step(r(Dir::Both).v("r"), n("b").p("p", lit_i(2))).step(r(Dir::Both).v("s"), n("c"))])], vec!["a", "b", "c"], vec!["r", "s"], None);
+    add("two_mid_AB_und_R", vec![m(vec![pp(n("a").l("A")).step(r(Dir::Both).v("r").t("R"), n("b").l("A").l("B")).step(r(Dir::Both).v("s").t("R"), n("c").l("A"))])], vec!["a", "b", "c"], vec!["r", "s"], None);
+    add("two_end_B_und", vec![m(vec![pp(n("a")).step(r(Dir::Both).v("r"), n("b")).step(r(Dir::Both).v("s"), n("c").l("B"))])], vec!["a", "b", "c"], vec!["r", "s"], None);
+    add("mm_then_mid_B", vec![m(vec![pp(n("x")).step(r(Dir::Out).v("q"), n("b").l("B"))]), m(vec![pp(n("a")).step(r(Dir::Both).v("r"), n("b")).step(r(Dir::Both).v("s"), n("c"))])], vec!["a", "b", "c"], vec!["r", "s"], None);
     // --- comma patterns (relationship isomorphism across the clause)
     add("comma_nodes", vec![m(vec![pp(n("a")), pp(n("b"))])], vec!["a", "b"], vec![], None);
     add("comma_A_B", vec![m(vec![pp(n("a").l("A")), pp(n("b").l("B"))])], vec!["a", "b"], vec![], None);
